@@ -48,10 +48,21 @@ def vec(shape_len, fill, dec, k):
 def build_quat(c, k):
     """returns (callable, expected_direction_or_None)"""
     sh, fill, dec, versor = c["shape"], c["fill"], c["dec"], c["versor"]
+    qlayout = None
+    if "[" in sh:
+        sh, qlayout = sh.split("[")[0], sh.split("[")[1].rstrip("]")
     if sh in ("v3", "v4", "v2", "v5"):
         n = int(sh[1])
         v, d = vec(n, fill, dec, k)
         arg = np.array(v) if fill in ("finite", "zero", "nan", "inf") and k % 2 == 0 else v
+        if qlayout and fill in ("finite", "zero", "nan", "inf"):
+            arg = np.array(v, dtype=float)
+            if qlayout == "read-only":
+                arg.setflags(write=False)
+            else:
+                table = np.full((n, 5), 0.25)
+                table[:, k % 5] = arg
+                arg = table[:, k % 5]           # one column of a table of samples
         want = (0,) + tuple(d) if n == 3 else d
         return (lambda: Quaternion(arg, versor=versor)), want
     if sh == "m1x4":
@@ -117,6 +128,8 @@ def relayout(A, how):
         return big[..., ::2, ::2]
     if how == "int-dtype":
         return np.rint(A).astype(np.int64)
+    if how == "list-of-lists":
+        return [[float(x) for x in row] for row in A]
     if how == "read-only":
         B = A.copy()
         B.setflags(write=False)
@@ -182,6 +195,8 @@ def build_dcm(c, k, rng):
     if route == "matrix":
         M, u = mat_of_class(mc, k, rng)
         keep = (lambda X: X) if "[" in mc else (lambda X: X.copy())      # a copy would undo the layout under test
+        if isinstance(M, list) and ctor == "QuaternionArray(DCM=)":
+            M = np.array(M)
         Mf = np.array(M, dtype=float)
         if ctor == "DCM":
             return (lambda: DCM(keep(M))), ("mat", Mf if u is not None else None)
